@@ -137,7 +137,8 @@ TrClientNew ==
                        \cup (IF e.N # SrvN \/ e.g # SrvG THEN {"ClientNew.announcedGroup"} ELSE {})
                        \cup (IF out'.kind = "ok" /\ out'.A[32] = 0 THEN {"class.A.zeroPadded"} ELSE {})
                        \cup (LET x == X(Text(e.user), Text(e.pass), e.salt)
-                             IN (IF x[1] = 0 THEN {"class.x.lowZero"} ELSE {}) \cup (IF x[20] = 0 THEN {"class.x.highZero"} ELSE {}))
+                             IN (IF x[1] = 0 THEN {"class.x.lowZero"} ELSE {}) \cup (IF x[20] = 0 THEN {"class.x.highZero"} ELSE {})
+                                \cup (IF \E w \in 0..4 : \A k \in 1..4 : x[4 * w + k] = 0 THEN {"class.x.zeroWord"} ELSE {}))
                        \cup (IF out'.kind = "ok" /\ (Uh(out'.A, e.B)[1] = 0 \/ Uh(out'.A, e.B)[20] = 0) THEN {"class.u.zeroEnd"} ELSE {})
                        \cup (IF BnCmp(e.B, BnMul(K3, Verifier(e.g, e.N, Text(e.user), Text(e.pass), e.salt))) < 0
                              THEN {"class.BminusKv.negative"} ELSE {"class.BminusKv.nonneg"}),
